@@ -125,13 +125,15 @@ theorem allS_stepRel {s s' : Store} (h : AllS s) (hrel : StepRel s s') : AllS s'
   obtain ⟨c, hc, r⟩ := hrel c' hc'
   exact sinv_rel (h c hc) r
 
-theorem stepRel_addProxy (s : Store) (addr n0 n1 : String) (host : Option String) :
-    StepRel s (addProxy s addr n0 n1 host).1 := by
+theorem stepRel_addProxy (s : Store) (addr n0 n1 : String) (host : Option String) (index : Option Nat) :
+    StepRel s (addProxy s addr n0 n1 host index).1 := by
   unfold addProxy
   split
   · exact StepRel.rfl' s
   · dsimp only
-    split <;> exact stepRel_of_clusters rfl
+    split
+    · exact StepRel.rfl' s
+    · split <;> exact stepRel_of_clusters rfl
 
 theorem stepRel_removeProxy (s : Store) (addr : String) : StepRel s (removeProxy s addr).1 := by
   unfold removeProxy
@@ -258,6 +260,9 @@ theorem stepRel_replaceFailedProxy (s : Store) (addr choice : String) :
       | ok u =>
         cases u
         simp only
+        split
+        · -- ordered mode: takeover, a second bump, no replacement
+          exact h1.trans (stepRel_of_clusters rfl)
         have h2 : StepRel s1 { s1 with failed := if s1.failed.contains addr then s1.failed else s1.failed ++ [addr] } :=
           stepRel_of_clusters rfl
         generalize ({ s1 with failed := if s1.failed.contains addr then s1.failed else s1.failed ++ [addr] } : Store) = S2 at h2 ⊢
